@@ -212,6 +212,14 @@ def kani_build(features, hooks=True):
            "--no-default-features", "--features", ",".join(cargo_feats)]
     t0 = time.time()
     r = run(cmd, cwd=HARNESS, env=env)
+    # cargo's probe of the compiler ("failed to run `rustc` to learn about target-specific information")
+    # fails sporadically when another cargo-kani process starts at the same moment (seen with scratch
+    # copies building concurrently); it is not a property of the sources: retry
+    tries = 0
+    while r.returncode != 0 and "learn about target-specific information" in r.stdout and tries < 4:
+        tries += 1
+        time.sleep(3 + 2 * tries)
+        r = run(cmd, cwd=HARNESS, env=env)
     dt = time.time() - t0
     if r.returncode != 0:
         return None, dt, r.stdout
